@@ -623,6 +623,9 @@ class ProductState:
             assert isinstance(to, jnp.ndarray)
             operation.compute_dimensions(0, to)
         elif isinstance(operation._operation_type, CompositeOperationType):
+            # The operand types are stored on the (shared) operation type,
+            # another operation of the same type might have changed them
+            operation._operation_type.update(**operation.kwargs)
             assert len(states) == len(
                 operation._operation_type.expected_base_state_types
             )
